@@ -26,7 +26,8 @@ CLAIMED = {
         "Machine-checked Coq theorems over an exact-rational Gallina model of index_of / range_indices / position_at / axis / "
         "tick_at for the three dimension kinds: for every offset, every positive interval, every position and mode the result "
         "is THE last sample <= / < or first sample >= the position and None (IndexError) exactly when no such sample exists; "
-        "range_indices covers exactly the samples in the interval; round trips; for every ascending tick vector (repeats, "
+        "range_indices covers exactly the samples in the interval; round trips; generated axes (started by index, by position - "
+        "refused exactly before the offset -, by nothing) agree with position_at; for every ascending tick vector (repeats, "
         "single, empty) and every label count. The declarative order specification is short (Proofs/DimsBase.v). The "
         "theorems exclude, by an explicit boolean hypothesis, positions inside np.isclose's tolerance of a sample (known "
         "finding, refuted theorem with witness). The executable oracle applied to the implementation's answers is proven "
